@@ -322,3 +322,143 @@ func TestDumpIsASnapshot(t *testing.T) {
 		}
 	}
 }
+
+// poolScript runs a pool script (0 _ = create; 1 k = remove the k-th handle issued since the last
+// Reset if it is alive; 2 _ = Reset) through the World API; the same script runs on the Coq model
+// (Model/DumpLoad.v, prun).
+func poolScript(w *ecs.World, ops [][2]int) []ecs.Entity {
+	var issued []ecs.Entity
+	for _, o := range ops {
+		switch o[0] {
+		case 0:
+			issued = append(issued, w.NewEntity())
+		case 1:
+			if o[1] < len(issued) && w.Alive(issued[o[1]]) {
+				w.RemoveEntity(issued[o[1]])
+			}
+		default:
+			w.Reset()
+			issued = nil
+		}
+	}
+	return issued
+}
+
+func tryLoad(w *ecs.World, d *ecs.EntityDump) (ok bool) {
+	defer func() {
+		if recover() != nil {
+			ok = false
+		}
+	}()
+	w.Unsafe().LoadEntities(d)
+	return true
+}
+
+// TestDumpLoadAgainstModel ties the pool-level model of DumpEntities / LoadEntities (the subject of
+// the C17 dump/load theorems) to the implementation: random source and target scripts; the dump of
+// the source is offered to the target as it is (accepted or rejected) and after a Reset; then Alive of
+// every handle of the source and the next creations are compared with the extracted model.
+func TestDumpLoadAgainstModel(t *testing.T) {
+	n := 400
+	if thorough() {
+		n = 6000
+	}
+	r := sim.NewRng(seed()*15485863 + 11)
+	genOps := func(ln int) [][2]int {
+		ops := make([][2]int, ln)
+		created := 0
+		for i := range ops {
+			switch x := r.Intn(100); {
+			case x < 55:
+				ops[i] = [2]int{0, 0}
+				created++
+			case x < 94:
+				ops[i] = [2]int{1, r.Intn(created + 2)}
+			default:
+				ops[i] = [2]int{2, 0}
+				created = 0
+			}
+		}
+		return ops
+	}
+	var in strings.Builder
+	var want []string
+	in.WriteString("-100\n")
+	rejected, emptyTargets, maxIssued, removed := 0, 0, 0, 0
+	for k := 0; k < n; k++ {
+		src := genOps(r.Intn(70))
+		var tgt [][2]int
+		if !r.Chance(25) {
+			tgt = genOps(r.Intn(25))
+		}
+		next := 1 + r.Intn(14)
+		caps := [][2]int{{1, 1}, {2, 1}, {4, 2}, {32, 4}}[r.Intn(4)]
+		sw := ecs.NewWorld(caps[0], caps[1])
+		issued := poolScript(sw, src)
+		tw := ecs.NewWorld(caps[0]+r.Intn(3), caps[1])
+		poolScript(tw, tgt)
+		dump := sw.Unsafe().DumpEntities()
+		var line []string
+		rej := !tryLoad(tw, &dump)
+		if rej {
+			rejected++
+			line = append(line, "1")
+		} else {
+			line = append(line, "0")
+			emptyTargets++
+		}
+		tw.Reset()
+		if !tryLoad(tw, &dump) {
+			line = append(line, "0")
+		} else {
+			line = append(line, "1")
+			for _, h := range issued {
+				if sw.Alive(h) != tw.Alive(h) {
+					t.Fatalf("VERIF-REPLAY dumpload case %d: handle %v alive in source=%v, loaded=%v", k, h, sw.Alive(h), tw.Alive(h))
+				}
+				if tw.Alive(h) {
+					line = append(line, "1")
+				} else {
+					line = append(line, "0")
+					removed++
+				}
+			}
+			for j := 0; j < next; j++ {
+				e := tw.NewEntity()
+				line = append(line, strconv.Itoa(int(e.ID())), strconv.Itoa(int(e.Gen())))
+			}
+		}
+		if len(issued) > maxIssued {
+			maxIssued = len(issued)
+		}
+		want = append(want, strings.Join(line, " "))
+		fmt.Fprintf(&in, "6 %d %d", next, len(src))
+		for _, o := range src {
+			fmt.Fprintf(&in, " %d %d", o[0], o[1])
+		}
+		for _, o := range tgt {
+			fmt.Fprintf(&in, " %d %d", o[0], o[1])
+		}
+		in.WriteString("\n")
+	}
+	cmd := exec.Command("../../build/arkmodel")
+	cmd.Stdin = strings.NewReader(in.String())
+	out, err := cmd.Output()
+	if err != nil {
+		t.Fatalf("model interpreter failed: %v", err)
+	}
+	got := strings.Split(strings.TrimSpace(string(out)), "\n")
+	if len(got) > 0 && got[len(got)-1] == "#" {
+		got = got[:len(got)-1]
+	}
+	if len(got) != len(want) {
+		t.Fatalf("model returned %d lines, want %d", len(got), len(want))
+	}
+	inLines := strings.Split(in.String(), "\n")
+	for i := range want {
+		if strings.TrimSpace(got[i]) != want[i] {
+			t.Fatalf("VERIF-REPLAY dumpload case %d (%s): implementation %q, model %q", i, inLines[i+1], want[i], got[i])
+		}
+	}
+	fmt.Printf("VERIF-STAT {\"dumpload_cases\": %d, \"dumpload_rejected_before_reset\": %d, \"dumpload_accepted_without_reset\": %d, \"dumpload_max_handles\": %d, \"dumpload_dead_handles_compared\": %d}\n", n, rejected, emptyTargets, maxIssued, removed)
+}
